@@ -42,6 +42,8 @@ fn dummy_fn(module: &str, self_ty: Option<String>) -> FnEntry {
 }
 
 fn new_tr<'a>(idx: &'a Index, reg: &'a Registry, cur: &'a FnEntry) -> Tr<'a> {
+    reg.structs.set_hint(&cur.path);
+    reg.enums.set_hint(&cur.path);
     Tr {
         idx,
         reg,
